@@ -121,7 +121,7 @@ func (s *Session) verifyFunc(prop string, ct *Contract) *FuncReport {
 	}
 	enc.named = ParsePreludeLiterals(s.Prelude)
 	x := &Exec{enc: enc, L: s.L, db: s.DB, sigs: s.Sigs, prelude: s.Prelude, maxPaths: 4096, loopInfo: map[*ssaFunction]*loopInfo{},
-		ghostTy: map[string]ghostInfo{}, prop: prop, singleCoin: map[string]TV{}, lenHint: map[string]int64{}, callerSeqs: map[string]string{}}
+		ghostTy: map[string]ghostInfo{}, prop: prop, singleCoin: map[string]TV{}, lenHint: map[string]int64{}, callerSeqs: map[string]string{}, gasMeters: map[int]GasV{}}
 	x.registerGhosts(fn)
 	rep := x.Verify(fn, ct)
 	rep.SrcHash = s.L.SourceHash(fn)
